@@ -177,6 +177,17 @@ func (e *Env) monitorGov(st *Step, f []string) {
 		if a0.T.Cmp(a1.T) != 0 || a0.S.Cmp(a1.S) != 0 || a0.Start.Cmp(a1.Start) != 0 || a0.Init != a1.Init {
 			st.fail("C16", "update_frame", "update of asset %d altered totals or start time", d)
 		}
+		// an accepted update stores the requested weight, range, take rate and decay schedule (all routes, incl. the legacy proposal)
+		eq := func(x *big.Int, tok string) bool { return tok != "nil" && x.String() == tok }
+		if !eq(a1.W, f[4]) || !eq(a1.Min, f[5]) || !eq(a1.Max, f[6]) || !eq(a1.Rate, f[8]) || fmt.Sprint(a1.Intv) != f[9] {
+			st.fail("C14", "update_not_applied", "update of asset %d asked for weight %s range [%s,%s] change rate %s interval %s, stored %s [%s,%s] %s %d",
+				d, f[4], f[5], f[6], f[8], f[9], a1.W, a1.Min, a1.Max, a1.Rate, a1.Intv)
+			st.fail("C16", "update_not_applied", "update of asset %d did not store the requested fields", d)
+		}
+		if !eq(a1.TR, f[7]) {
+			st.fail("C09", "update_not_applied", "update of asset %d asked for take rate %s, stored %s", d, f[7], a1.TR)
+			st.fail("C16", "update_not_applied", "update of asset %d did not store the requested take rate", d)
+		}
 		// C14: the decay clock starts when decay is switched on, and is left alone otherwise
 		wantLast := a0.Last
 		if (a1.Rate.Cmp(a0.Rate) != 0 || a1.Intv != a0.Intv) && (a0.Rate.Cmp(bigP) == 0 || a0.Intv == 0) {
